@@ -62,6 +62,7 @@ var (
 	reMissing    = regexp.MustCompile(`(?s)^Required params (\[.*?\]) are not passed by the call: `)
 	reLets       = regexp.MustCompile(`^\{let\} variables (\[.*\]) are not used\.$`)
 	reDataRef    = regexp.MustCompile(`^data ref (".*") not found\. params: (\[.*\]), let variables: (\[.*\])$`)
+	reLoopFn     = regexp.MustCompile(`^.*: the argument of (\S+) must be the variable of an enclosing foreach or for loop$`)
 	reDup        = regexp.MustCompile(`^template (\S+) is defined more than once$`)
 )
 
@@ -73,6 +74,8 @@ func canonCheckErr(msg string) string {
 		return "ERR reg namespaceExpected"
 	case msg == "template may not have both soydoc and header params specified":
 		return "ERR reg bothParams"
+	case strings.HasPrefix(msg, "command outside of a template: "):
+		return "ERR reg commandOutside"
 	}
 	if m := reDup.FindStringSubmatch(msg); m != nil {
 		return "ERR reg duplicate " + hexNames([]string{m[1]})
@@ -120,6 +123,9 @@ func canonCheckErr(msg string) string {
 		if err == nil && ok1 && ok2 {
 			return pre + "dataRefNotFound " + hexNames([]string{k}) + " " + hexNames(ps) + " " + hexNames(vs)
 		}
+	}
+	if x := reLoopFn.FindStringSubmatch(body); x != nil {
+		return pre + "loopFuncArg " + hexNames([]string{x[1]})
 	}
 	return "ERR ?" + msg
 }
